@@ -257,7 +257,7 @@ pub fn suites() -> Vec<Suite> {
         head_len: 40,
         op_len: 0,
         max_ops: 0,
-        quick_cases: 4_000_000,
+        quick_cases: 20_000_000,
         thorough_cases: 150_000_000,
         run,
         direct: Some(direct),
